@@ -14,6 +14,7 @@ def c08(ctx):
     run_script(ctx, gen.random_plain(ctx.rng, "cc14", ctx.q(15000, 100000), seg=300, bursts=False), "random-cc14-history",
                history=True)
     run_script(ctx, gen.sweep_cc14_values(ctx.rng, step=ctx.q(2, 1)), "value-sweep-cc14")
+    long_run_battery(ctx, ["cc14"])
     # twin-free canary: corrupt one reported value / fabricate one report
     canary(ctx, trace, corrupt_out("cc14", op=("feed",), need_report=ctx.rng.random() < 0.5))
     ctx.rule = ("design: TLC fixpoint of machine x C08-monitor (all 128 controller numbers, abstract values, "
@@ -56,6 +57,7 @@ def c07(ctx):
     for _ in range(ctx.q(1, 6)):
         rows += gen.sweep_cc14_values(ctx.rng, step=1)         # all 16384 (high, low) pairs
     run_script(ctx, rows, "value-sweep-cc14")
+    long_run_battery(ctx, ["cc14"])
     canary(ctx, trace, corrupt_field("bytes", [[176, 0, 0], [176, 32, 1]],
                                      lambda r: r["op"] == "enc14" and not r["pan"]))
     canary(ctx, trace, lambda rows, rng: _corrupt_group_out(rows, rng, "rt14"))
@@ -86,6 +88,7 @@ def c11(ctx):
     run_script(ctx, gen.random_plain(ctx.rng, "pn", ctx.q(12000, 80000), seg=250, bursts=False), "random-pn-history",
                history=True)
     run_script(ctx, gen.sweep_pn_values(ctx.rng, "pn", step=ctx.q(3, 1)), "value-sweep-pn")
+    long_run_battery(ctx, ["pn"])
     canary(ctx, trace, corrupt_out("pn", op=("feed",), need_report=ctx.rng.random() < 0.5))
     ctx.rule = ("design: TLC fixpoint of machine x C11-monitor (all 8 contributing controllers + 11 others, "
                 "abstract values, other message types, reset); code: every TLC edge on all 16 channels x 3 "
@@ -101,6 +104,7 @@ def c10(ctx):
     run_script(ctx, sweep_roundtrip(ctx, variant_paths(ppn), "pn", 0, 1500), "roundtrip-in-every-explored-state")
     res, trace = run_script(ctx, gen.roundtrip_pn(ctx.rng, ctx.q(6000, 60000)), "roundtrip-pn")
     run_script(ctx, gen.sweep_pn_values(ctx.rng, "pn", step=1), "value-sweep-pn")     # every parameter number, every 14-bit value
+    long_run_battery(ctx, ["pn"])
     canary(ctx, trace, lambda rows, rng: _corrupt_group_out(rows, rng, ctx.rng.choice(["rtpn", "run"])))
     ctx.rule = ("design: invariants I_C10 / I_C10run hold in every reachable machine state (TLC): every abstract "
                 "message's LSB-first encoding and the running forms (3 repetitions) are inverted; code: complete "
@@ -134,23 +138,9 @@ def c13(ctx):
     for i, to in enumerate((1, 5, 1000)):
         rows += gen.sweep_pn_values(ctx.rng, "poll", step=ctx.q(16, 2), to=to, first_id=600 + i, sweeps=not ctx.quick or to == 5)
     run_script(ctx, rows, "special-numbers-early-and-late-polls")
-    # smoke run of the PRODUCTION configuration (guard off, real std::time::Instant): histories whose
-    # reports do not depend on how much time passes (timeout 0: every poll is late; Duration::MAX: none is)
-    rows = gen.random_poll(ctx.rng, ctx.q(6000, 60000), timeouts=[0, -1], first_id=900)
-    rows = [r for r in rows if r["op"] != "tick"]
-    script = ctx.work.fresh("script_real-clock_", "ndjson")
-    write_ndjson(script, rows)
-    from common import exec_script
-    exec_script(script, script + ".trace", config="nohook")
-    res2 = validate_trace(ctx.work, script + ".trace")
-    bad = [v for v in res2.of("VIOL") if v[1] == "C13"] + res2.of("TOOLERR")
-    ctx.traces += 1
-    ctx.events += res2.events
-    if bad:
-        ctx.viol.append({"clause": bad[0][2], "trace_index": bad[0][3], "event": None,
-                         "replay": save_replay(ctx, script, script + ".trace", bad[0][3], "real-clock"),
-                         "count": len(bad), "driver": "real-clock (guard off)"})
-    log("trace real-clock (guard off): %d events, %d findings" % (res2.events, len(bad)))
+    long_run_battery(ctx, ["poll"])
+    far_time_battery(ctx)
+    real_clock_run(ctx)
     canary(ctx, trace, corrupt_out("poll", op=("poll",), need_report=ctx.rng.random() < 0.5))
     need = ["poll.early.pending", "poll.late.pending", "poll.late.lsb", "poll.early.flag", "twin.C13", "C13l"]
     vacuity(ctx, need)
@@ -174,6 +164,8 @@ def c14(ctx):
     edges_poll(ctx)
     res, trace = random_poll_traces(ctx, ctx.q(80000, 600000))
     run_script(ctx, gen.sweep_pn_values(ctx.rng, "poll", step=ctx.q(5, 1), to=ctx.rng.choice([0, 1, 5])), "value-sweep-poll")
+    long_run_battery(ctx, ["poll"])
+    far_time_battery(ctx)
     canary(ctx, trace, corrupt_out("poll", op=("feed",), need_report=True))
     vacuity(ctx, ["feed.poll.two", "C14e.feed", "poll.late.pending", "feed.poll.report", "reset.poll"])
     ctx.rule = ("design: TLC fixpoint of machine x monitor over the malformed alphabet too (any contributing "
